@@ -131,9 +131,11 @@ type c38Export struct {
 }
 
 type c38Profile struct {
-	name string
-	w    [8]int // new, import, delete, setdefault, setlabel, changepw, changescheme, reopen
-	allK bool   // all six key specs instead of mostly the first three
+	name   string
+	w      [8]int // new, import, delete, setdefault, setlabel, changepw, changescheme, reopen
+	allK   bool   // all six key specs instead of mostly the first three
+	steps  int    // average number of operations per history (default 8)
+	faults int    // one in `faults` saving operations gets a failing save (default 4)
 }
 
 type c38World struct {
@@ -357,8 +359,14 @@ func (w *c38World) checkKey(c account.Client, idx int, a *c38Acct, final bool) {
 	if acc.Address.ToBase58() != a.addr || !strings.EqualFold(acc.SigScheme.Name(), a.scheme) {
 		w.fail("after reload, account #%d opens as address %s scheme %s, want %s %s", a.id, acc.Address.ToBase58(), acc.SigScheme.Name(), a.addr, a.scheme)
 	}
-	probes := 1 // scrypt dominates the cost of a history: one probe, two at the end for accounts with a password history
-	if final && (len(a.prev) > 0 || len(a.failed) > 0) {
+	// scrypt dominates the cost of a history: between reopens only accounts with a password history get a
+	// wrong-password probe; at the end every account gets one, those with a history two
+	hist := len(a.prev) > 0 || len(a.failed) > 0
+	probes := 0
+	if final || hist {
+		probes = 1
+	}
+	if final && hist {
 		probes = 2
 	}
 	for _, wp := range w.wrongPasswords(a, probes) {
@@ -458,7 +466,11 @@ func (w *c38World) reopen(final bool) {
 // "<path>~" and renames it over the wallet file, so a directory of that name fails the write before
 // anything on disk changes. (The very first save writes the file directly and is never failed.)
 func (w *c38World) armFault() string {
-	if uniform(w.t, 4, "save-fails") != 0 {
+	oneIn := w.p.faults
+	if oneIn == 0 {
+		oneIn = 4
+	}
+	if uniform(w.t, oneIn, "save-fails") != 0 {
 		return ""
 	}
 	if _, err := os.Stat(w.path); err != nil {
@@ -518,10 +530,19 @@ func (w *c38World) opNew() {
 	}
 	sp := c38Specs[uniform(w.t, specs, "key-spec")]
 	label := c38Labels[uniform(w.t, len(c38Labels), "label")]
+	if w.hasLabel(label) && label != "" && uniform(w.t, 3, "keep-duplicate") != 0 {
+		// a refused NewAccount still pays for the encryption: keep a third of the duplicate labels
+		for _, l := range c38Labels {
+			if !w.hasLabel(l) {
+				label = l
+				break
+			}
+		}
+	}
 	scheme := sp.scheme
 	kind := "natural"
 	switch k := uniform(w.t, 10, "scheme-kind"); {
-	case k < 2:
+	case k < 1:
 		inv := c38Invalid(sp.family)
 		scheme = inv[uniform(w.t, len(inv), "invalid-scheme")]
 		kind = "invalid"
@@ -804,7 +825,7 @@ func (w *c38World) step() {
 
 func c38Run(t *testing.T, p c38Profile, quick, thorough int) {
 	ev := harn.For("C38").
-		Rule("histories (avg 8 operations after a first NewAccount) on a wallet file with default scrypt parameters: NewAccount (P-256/SM2/Ed25519, profile 'schemes' also P-224/384/521; natural, other valid, or invalid scheme; label from {\"\",t1,t2,main,λ-wallet,a b\"<&>}; 4% empty password), ImportAccount (metadata exported from another wallet file or from this wallet before a deletion; only addresses the wallet does not hold), DeleteAccount (65% a non-default account with its password, else wrong password / default account / unknown address), SetDefaultAccount, SetLabel, ChangePassword (25% wrong old password; 10% back to the previous one; 10% unchanged), ChangeSigScheme (1/3 invalid), reopen; before a quarter of the saving operations the next save is made to fail (the operation must report it and leave the wallet as it was). Non-trivial = >=2 accounts ever listed, >=1 successful mutation after creation (import, delete, default, label, password, scheme) and a reopen after it; distinct by the operation log (account numbers, not addresses)").
+		Rule("histories (avg 8 operations after a first NewAccount; 10 in profile 'savefaults', 20 mostly scrypt-free ones in profile 'metadata') on a wallet file with default scrypt parameters: NewAccount (P-256/SM2/Ed25519, profile 'schemes' also P-224/384/521; natural, other valid, or (10%) invalid scheme; label from {\"\",t1,t2,main,λ-wallet,a b\"<&>}; 4% empty password), ImportAccount (metadata exported from another wallet file or from this wallet before a deletion; only addresses the wallet does not hold), DeleteAccount (65% a non-default account with its password, else wrong password / default account / unknown address), SetDefaultAccount, SetLabel, ChangePassword (25% wrong old password; 10% back to the previous one; 10% unchanged), ChangeSigScheme (1/3 invalid), reopen; before a quarter (profile 'savefaults': half) of the saving operations the next save is made to fail (the operation must report it and leave the wallet as it was). Non-trivial = >=2 accounts ever listed, >=1 successful mutation after creation (import, delete, default, label, password, scheme) and a reopen after it; distinct by the operation log (account numbers, not addresses)").
 		Assume("key pairs and salts come from crypto/rand inside NewAccount/EncryptPrivateKey; addresses therefore differ between runs and are never part of a draw or of the case description").
 		Assume("AES-GCM authentication makes decryption with a wrong scrypt key fail; wrong passwords are sampled (2 + the empty one per checked account), not enumerated").
 		Assume("passwords are non-empty byte strings without NUL bytes and shorter than 64 bytes (what a terminal or a command line can deliver): scrypt's PBKDF2-HMAC-SHA256 zero-pads keys to the 64-byte block and hashes longer ones, so p and p||0x00 (and a >64-byte p and sha256(p)) are the same key by construction of HMAC, not by a choice of the wallet")
@@ -816,7 +837,11 @@ func c38Run(t *testing.T, p c38Profile, quick, thorough int) {
 		ev.Floor("fault:"+op+":save-failed", "fault:injected", 0.015)
 	}
 
-	harn.CheckSteps(t, 8, quick, thorough, func(t *rapid.T) {
+	steps := p.steps
+	if steps == 0 {
+		steps = 8
+	}
+	harn.CheckSteps(t, steps, quick, thorough, func(t *rapid.T) {
 		dir, err := os.MkdirTemp("", "c38-")
 		if err != nil {
 			t.Fatal(err)
@@ -861,9 +886,19 @@ func TestC38_LabelsDefaultDelete(t *testing.T) {
 }
 
 func TestC38_ImportExport(t *testing.T) {
-	c38Run(t, c38Profile{name: "import", w: [8]int{8, 30, 22, 6, 8, 8, 2, 16}}, 5, 60)
+	c38Run(t, c38Profile{name: "import", w: [8]int{8, 30, 22, 6, 8, 8, 2, 16}}, 4, 60)
 }
 
 func TestC38_Schemes(t *testing.T) {
 	c38Run(t, c38Profile{name: "schemes", w: [8]int{24, 6, 8, 4, 4, 8, 28, 18}, allK: true}, 5, 60)
+}
+
+// every second saving operation meets a failing save; password changes dominate
+func TestC38_SaveFaults(t *testing.T) {
+	c38Run(t, c38Profile{name: "savefaults", w: [8]int{10, 8, 12, 12, 14, 26, 8, 10}, steps: 10, faults: 2}, 5, 60)
+}
+
+// long histories of the operations that cost no scrypt time (default, label, scheme; valid, invalid, unknown address)
+func TestC38_Metadata(t *testing.T) {
+	c38Run(t, c38Profile{name: "metadata", w: [8]int{3, 3, 3, 27, 27, 2, 21, 14}, steps: 20}, 5, 60)
 }
